@@ -377,6 +377,7 @@ def run(ctx):
         h_len[len(case[2])] = h_len.get(len(case[2]), 0) + 1
         if len(case[2]) >= 2 and any(x['outcome'] == 'ok' for x in r['rec']):
             distinct.add(il)
+    failures.sort(key=lambda f: len(str(f['case'])))          # report the smallest failing input first
     return dict(
         evaluations=len(cases), distinct_nontrivial=len(distinct),
         rule='every output spec with <= 2 ports over the attribute alphabet x (no emission, every single emission of a 35-element alphabet, '
